@@ -483,7 +483,7 @@ func init() {
 		Finish:    c11Growth,
 		ID:        "C11",
 		Technique: "aliasing monitor: deep snapshots, address-range overlap checks of every string/byte slice/map key, scribbling, and inputs in PROT_READ mmap regions ending at a PROT_NONE page that are munmapped before the decoded value is read",
-		Rule: "generated types (string-, byte-slice-, map-key-, intern-, null.String- and JSON-any-bearing shapes arise from the generator) x boundary-biased values. Per value: Marshal into a prefixed buffer with snapshot of value and prefix, overlap check of the returned bytes against all string/byte data of the value, scribble over the output; " +
+		Rule: "three damaged encodings per value are decoded from read-only mappings into the type and into an older version of it (fields removed, renamed, added): a fault inside the mapped data is a write to the input. Generated types (string-, byte-slice-, map-key-, intern-, null.String- and JSON-any-bearing shapes arise from the generator) x boundary-biased values. Per value: Marshal into a prefixed buffer with snapshot of value and prefix, overlap check of the returned bytes against all string/byte data of the value, scribble over the output; " +
 			"Unmarshal from a read-only guarded mapping (a write or an over-read faults), address check of all decoded string/byte data against the mapping, munmap, then full comparison of the decoded value (a retained reference faults); the same target decoded into twice from two mappings; three damaged encodings per value decoded from mappings, the target scanned and read after munmap whatever Unmarshal returned; heap input complemented and re-used for another message. distinct = cases whose value has non-zero content and at least one string/byte slice in the decoded value",
 		Assume: []string{"debug.SetPanicOnFault turns a fault on the mapping into a recoverable panic carrying the address"},
 		Plan: func(tier string) []core.Lane {
